@@ -20,6 +20,7 @@ type Env struct {
 	closed  bool // do not resolve caller-local names (callee contract at a call site)
 	atBlock *ssa.BasicBlock
 	depth   int
+	lits    map[string]string // macro parameters bound to string literals (type names)
 }
 
 func (env *Env) with(st *State) *Env {
@@ -548,9 +549,19 @@ func (x *Exec) evalCall(n *SCall, env *Env) Val {
 		ne.closed = true
 		ne.results = nil
 		ne.resNames = nil
+		ne.lits = map[string]string{}
 		for i, p := range m.Params {
 			ne.bound[p] = x.eval(n.Args[i], env)
+			if lit, ok := n.Args[i].(*SStr); ok {
+				ne.lits[p] = lit.V
+			} else if id, ok := n.Args[i].(*SIdent); ok && env.lits != nil {
+				if v, ok := env.lits[id.Name]; ok {
+					ne.lits[p] = v
+				}
+			}
 		}
+		x.curLits = ne.lits
+		defer func(saved map[string]string) { x.curLits = saved }(env.lits)
 		return x.eval(m.Body, &ne)
 	}
 	if sig, ok := e.funSig(n.Fn); ok {
@@ -583,6 +594,13 @@ func (x *Exec) evalCall(n *SCall, env *Env) Val {
 
 func (x *Exec) typeArg(a SExpr) types.Type {
 	s, ok := a.(*SStr)
+	if !ok {
+		if id, isID := a.(*SIdent); isID && x.curLits != nil {
+			if v, has := x.curLits[id.Name]; has {
+				s, ok = &SStr{V: v}, true
+			}
+		}
+	}
 	if !ok {
 		x.fail("type argument must be a string literal")
 	}
